@@ -6,6 +6,7 @@ import (
 	"io"
 	"math/big"
 	"os/exec"
+	"regexp"
 	"strings"
 	"time"
 )
@@ -314,4 +315,55 @@ func (s *Solver) Close() {
 	case <-time.After(2 * time.Second):
 		s.cmd.Process.Kill()
 	}
+}
+
+// Raw sends a command without reading a reply (declarations, permanent assertions).
+func (s *Solver) Raw(cmd string) { s.send(cmd) }
+
+// RawCheck runs one query in a push/pop frame: assertion text, check-sat, optional integer model.
+func (s *Solver) RawCheck(assertion string, names []string) (string, map[string]*big.Int) {
+	t0 := time.Now()
+	s.Queries++
+	s.send("(push)")
+	s.send(assertion)
+	s.send("(check-sat)")
+	res := s.readLine()
+	var model map[string]*big.Int
+	if res == "sat" && len(names) > 0 {
+		s.send("(get-value (" + strings.Join(names, " ") + "))")
+		l := s.readSexp()
+		model = map[string]*big.Int{}
+		vals := parseIntValues(l)
+		for i, n := range names {
+			if i < len(vals) {
+				model[n] = vals[i]
+			}
+		}
+	}
+	s.send("(pop)")
+	s.Time += time.Since(t0)
+	return res, model
+}
+
+var intValRe = regexp.MustCompile(`\(\s*([A-Za-z_][A-Za-z0-9_]*)\s+(\(-\s*\d+\)|\d+)\s*\)`)
+
+func parseIntValues(l string) []*big.Int {
+	var out []*big.Int
+	for _, m := range intValRe.FindAllStringSubmatch(l, -1) {
+		t := strings.TrimSpace(m[2])
+		neg := false
+		if strings.HasPrefix(t, "(") {
+			neg = true
+			t = strings.Trim(t, "()- ")
+		}
+		v, ok := new(big.Int).SetString(strings.TrimSpace(t), 10)
+		if !ok {
+			v = big.NewInt(0)
+		}
+		if neg {
+			v.Neg(v)
+		}
+		out = append(out, v)
+	}
+	return out
 }
